@@ -159,7 +159,7 @@ class CFG:
             if n.id not in r or n.ast is None or n.kind not in ("stmt", "test", "for", "with"):
                 continue
             roots = _node_roots(n)
-            if any(astnode is x for root in roots for x in walk_local(root)):
+            if any(astnode is x for root in roots for x in _walk_root(root)):
                 out.append(n)
         return out
 
@@ -172,7 +172,7 @@ class CFG:
             if n.id not in r or n.ast is None or n.kind not in ("stmt", "test", "for", "with"):
                 continue
             for root in _node_roots(n):
-                for x in walk_local(root):
+                for x in _walk_root(root):
                     if pred(x):
                         out.append((n, x))
         return out
@@ -248,6 +248,16 @@ class CFG:
             if n.id in r:
                 lines.append("%r -> %s" % (n, ", ".join("%d:%s" % (i, k) for i, k in self.succ[n.id])))
         return "\n".join(lines)
+
+
+def _walk_root(root: ast.AST):
+    """walk_local that does not enter ``root`` when it is itself a nested def/class statement."""
+    if isinstance(root, ScopeNode):
+        yield root
+        for d in getattr(root, "decorator_list", []):
+            yield from walk_local(d)
+        return
+    yield from walk_local(root)
 
 
 def _node_roots(n: Node) -> List[ast.AST]:
@@ -564,7 +574,7 @@ def node_effects(n: Node) -> Tuple[Set[str], Set[str], bool]:
             assigned |= assigned_paths(n.ast)
         roots = [n.ast]
     for root in roots:
-        for x in walk_local(root):
+        for x in _walk_root(root):
             if isinstance(x, ast.Call):
                 if isinstance(x.func, ast.Attribute):
                     recv = dotted(x.func.value)
